@@ -133,6 +133,15 @@ class World:
             return {0: Dict[kt, vt], 1: dict[kt, vt], 2: Mapping[kt, vt], 3: MutableMapping[kt, vt]}[t[3]]
         if k == "opt":
             return Optional[self.to_py(t[1])]
+        if k == "counter":
+            import collections
+            return typing.Counter[self.to_py(t[1])] if t[2] == 0 else collections.Counter[self.to_py(t[1])]
+        if k == "defaultdict":
+            import collections
+            return typing.DefaultDict[self.to_py(t[1]), self.to_py(t[2])] if t[3] == 0 else collections.defaultdict[self.to_py(t[1]), self.to_py(t[2])]
+        if k == "deque":
+            import collections
+            return typing.Deque[self.to_py(t[1])] if t[2] == 0 else collections.deque[self.to_py(t[1])]
         if k == "class":
             return self.pycls[t[1]]
         if k == "self":
@@ -155,6 +164,8 @@ class World:
             return f"(TPrim {PRIM_COQ[t[1]]})"
         if k == "time":
             raise Unencodable("datetime / date leaves are not in the nested model")
+        if k in ("counter", "defaultdict", "deque"):
+            raise Unencodable("Counter / defaultdict / deque are not in the nested model (oracle only)")
         if k == "enum":
             return f"(TEnum {t[1]}%N)"
         if k == "lit":
@@ -206,6 +217,8 @@ class World:
             return "(VDict [" + "; ".join(f"({self.cval(k)}, {self.cval(x)})" for k, x in v.items()) + "])"
         for cid, cl in enumerate(self.pycls):
             if tv is cl:
+                if self.uses_td(cid):
+                    raise Unencodable("instance of a class that is not in the model environment")
                 fs = []
                 for f in self.specs[cid].fields:
                     if hasattr(v, f.name):
@@ -231,14 +244,39 @@ class World:
             out.append(f"({self.mid(spec.cid)}%N, {{| cd_fields := {fields}; cd_types := {types} |}})")
         return "[" + ";\n   ".join(out) + "]"
 
+    def finalize(self):
+        """Classes whose definition cannot be written down for the model (a default value of an unmodelled class, ...)
+        are left out of the model environment, together with every class that refers to them."""
+        self.unmodelled = set()
+        from lane_tpl import seen_kw_only
+        changed = True
+        while changed:
+            changed = False
+            for spec, cl in zip(self.specs, self.pycls):
+                if spec.cid in self.unmodelled or self.uses_td(spec.cid):
+                    continue
+                try:
+                    seen = seen_kw_only(cl)
+                    for f in spec.fields:
+                        self.cfield(f, seen[f.name])
+                        if f.type is not None:
+                            self.cty(f.type)
+                except Unencodable:
+                    self.unmodelled.add(spec.cid)
+                    changed = True
+
     def uses_td(self, cid, seen=()):
         if cid in seen:
             return False
+        if cid in getattr(self, "unmodelled", ()):
+            return True
         spec = self.specs[cid]
         return spec.kind == "td" or any(f.type is not None and self._mentions_td(f.type, seen + (cid,)) for f in spec.fields)
 
     def _mentions_td(self, t, seen=()):
         k = t[0]
+        if k in ("counter", "deque", "defaultdict", "time"):
+            return True           # not in the nested model either: classes holding them are left out of the model environment
         if k in ("class", "self"):
             return t[1] < len(self.specs) and self.uses_td(t[1], seen)
         if k in ("list", "tuphom", "set", "fset", "opt", "annot"):
@@ -273,6 +311,7 @@ def gen_world(rng: random.Random, profile: dict) -> World:
         spec = gen_class(w, cid)
         w.specs.append(spec)
         w.pycls.append(build_class(w, spec))
+    w.finalize()
     return w
 
 
@@ -314,6 +353,13 @@ def gen_type(w: World, depth: int, cid_limit: int, hashable=False, self_cid=None
         return ("prim", "int")
     r = rng.random()
     sub = lambda **kw: gen_type(w, depth - 1, cid_limit, **kw)
+    if p.get("ext_types") and rng.random() < 0.18:
+        kind = rng.choice(["counter", "defaultdict", "deque"])
+        if kind == "counter":
+            return ("counter", rng.choice([("prim", "str"), ("prim", "int"), ("enum", 1)]), rng.randrange(2))
+        if kind == "defaultdict":
+            return ("defaultdict", rng.choice([("prim", "str"), ("prim", "int")]), rng.choice([("prim", "int"), ("prim", "str"), ("list", ("prim", "int"), 1)]), rng.randrange(2))
+        return ("deque", sub(), rng.randrange(2))
     if r < 0.2:
         return ("list", sub(), rng.randrange(4))
     if r < 0.28:
@@ -399,7 +445,8 @@ def gen_class(w: World, cid: int) -> ClassSpec:
 
 
 def _is_mutable(v):
-    return isinstance(v, (list, dict, set)) or attrs.has(type(v)) or dataclasses.is_dataclass(v)
+    import collections
+    return isinstance(v, (list, dict, set, collections.deque)) or attrs.has(type(v)) or dataclasses.is_dataclass(v)
 
 
 def build_class(w: World, spec: ClassSpec):
@@ -511,6 +558,22 @@ def gen_value(w: World, t, depth: int):
             if kk not in d:
                 d[kk] = gen_value(w, t[2], depth - 1)
         return d
+    if k == "counter":
+        import collections
+        c = collections.Counter()
+        for _ in range(size()):
+            c[gen_value(w, t[1], depth - 1)] += rng.randint(1, 3)
+        return c
+    if k == "defaultdict":
+        import collections
+        fac = {"int": int, "str": str}.get(t[2][1], list) if t[2][0] == "prim" else list
+        d = collections.defaultdict(fac)
+        for _ in range(size()):
+            d[gen_value(w, t[1], depth - 1)] = gen_value(w, t[2], depth - 1)
+        return d
+    if k == "deque":
+        import collections
+        return collections.deque(gen_value(w, t[1], depth - 1) for _ in range(size()))
     if k == "opt":
         return None if rng.random() < 0.3 else gen_value(w, t[1], depth)
     if k in ("class", "self"):
@@ -670,8 +733,11 @@ def prims_of(w: World, t, acc, seen):
     k = t[0]
     if k == "prim":
         acc.add(t[1])
-    elif k in ("list", "tuphom", "set", "fset", "opt", "annot"):
+    elif k in ("list", "tuphom", "set", "fset", "opt", "annot", "counter", "deque"):
         prims_of(w, t[1], acc, seen)
+    elif k == "defaultdict":
+        prims_of(w, t[1], acc, seen)
+        prims_of(w, t[2], acc, seen)
     elif k == "newtype":
         prims_of(w, t[2], acc, seen)
     elif k == "tuple":
@@ -779,8 +845,10 @@ def has_class(w: World, t, seen=None):
     k = t[0]
     if k in ("class", "self"):
         return True
-    if k in ("list", "tuphom", "set", "fset", "opt", "annot"):
+    if k in ("list", "tuphom", "set", "fset", "opt", "annot", "counter", "deque"):
         return has_class(w, t[1])
+    if k == "defaultdict":
+        return has_class(w, t[1]) or has_class(w, t[2])
     if k == "newtype":
         return has_class(w, t[2])
     if k == "tuple":
@@ -792,8 +860,10 @@ def has_class(w: World, t, seen=None):
 
 def type_depth(t):
     k = t[0]
-    if k in ("list", "tuphom", "set", "fset", "opt", "annot"):
+    if k in ("list", "tuphom", "set", "fset", "opt", "annot", "counter", "deque"):
         return 1 + type_depth(t[1])
+    if k == "defaultdict":
+        return 1 + max(type_depth(t[1]), type_depth(t[2]))
     if k == "newtype":
         return 1 + type_depth(t[2])
     if k == "tuple":
@@ -807,8 +877,11 @@ def type_kinds(w, t, acc, seen=None):
     seen = set() if seen is None else seen
     acc[t[0]] = acc.get(t[0], 0) + 1
     k = t[0]
-    if k in ("list", "tuphom", "set", "fset", "opt", "annot"):
+    if k in ("list", "tuphom", "set", "fset", "opt", "annot", "counter", "deque"):
         type_kinds(w, t[1], acc, seen)
+    elif k == "defaultdict":
+        type_kinds(w, t[1], acc, seen)
+        type_kinds(w, t[2], acc, seen)
     elif k == "newtype":
         type_kinds(w, t[2], acc, seen)
     elif k == "tuple":
